@@ -74,7 +74,7 @@ def lanewise(cfg, structs, f, n, k, d, opname, prim, unary=False, scalar_left=Fa
     sse_trick = simd and not cfg.startswith('coresimd') and opname in TRICK      # lane function defined in coq/theories/FloatTricks.v and proved equal to the IEEE primitive there
     sse_rem = simd and not cfg.startswith('coresimd') and opname == 'Rem'          # known deviation (floored remainder): the full-strength lemma is stated and fails; a second lemma pins the present behaviour
     direct = (not simd) or (opname in SSE_DIRECT) or sse_trick or (cfg.startswith('coresimd') and (opname in UN or opname in BIN or opname in BINM or opname in ('neg', 'min', 'max', 'fract', 'fract_gl', 'clamp', 'powf')))
-    if sse_rem: direct = True
+    if sse_rem or opname == 'mul_add': direct = True      # mul_add is the fused primitive in every backend and configuration
     if direct:
         def lane(i):
             x = [a[i] for a in A]
